@@ -1,0 +1,13 @@
+//go:build verif
+
+package storage
+
+// VerifYieldHook, when set, is called at instrumented program points
+// (deterministic simulation only; never compiled in without the "verif" tag).
+var VerifYieldHook func(site string)
+
+func verifYield(site string) {
+	if h := VerifYieldHook; h != nil {
+		h(site)
+	}
+}
